@@ -600,23 +600,41 @@ def run_walkers(cfg):
     V = read_vars(n)
     base = read_base(V, n)
 
+    in_pseudo = z3.Bool("pseudogene")
+    shift = gene.regions[1]["e1"].start - gene.regions[0]["e1"].start \
+        if len(gene.regions) > 1 else 0
+
+    def mk(name, start, cigar, seq):
+        end = start + sum(s for o, s in cigar if o in (0, 7, 8, 2))
+        return FakeRead(cigartuples=[tuple(c) for c in cigar], cigarstring="x",
+                        is_supplementary=False, query_sequence=seq, query_name=name,
+                        reference_id=0, reference_name=gene.chr, reference_start=start,
+                        reference_end=end, mapping_quality=50,
+                        query_qualities=[30] * len(seq))
+
     def run():
         sample = new_sample(gene)
         start, cigar, seq = choose_read(eng, gene, sample, cfg, V)
+        # the same read placed over the pseudogene copy (outside the RefSeq-mapped part)
+        if shift and eng.branch(in_pseudo):
+            start += shift
         end = start + sum(s for o, s in cigar if o in (0, 7, 8, 2))
-        r = FakeRead(cigartuples=[tuple(c) for c in cigar], cigarstring="x",
-                     is_supplementary=False, query_sequence=seq, query_name="r",
-                     reference_id=0, reference_name=gene.chr, reference_start=start,
-                     reference_end=end, mapping_quality=50, query_qualities=[30] * len(seq))
+        # a second, plain read over the same window: depths must add up
+        w0 = start - 1
+        plain = "".join(b if b != "N" else "A" for b in gene[w0:w0 + 8])
+        reads = [mk("r", start, cigar, seq), mk("p", w0, [(0, 8)], plain)]
+        end = max(end, w0 + 8)
         norm, muts = collections.defaultdict(list), collections.defaultdict(list)
-        sample._parse_read("r", start, [tuple(c) for c in cigar], seq, norm, muts, 50,
-                           [30] * len(seq))
+        for rd in reads:
+            sample._parse_read(rd.query_name, rd.reference_start, rd.cigartuples,
+                               rd.query_sequence, norm, muts, 50,
+                               [30] * len(rd.query_sequence))
         sample._make_coverage(norm, muts)
-        d1 = {p: sample.coverage.total(p) for p in range(start - 1, end + 2)}
-        region = GRange(gene.chr, start - 2, end + 3)
+        d1 = {p: sample.coverage.total(p) for p in range(w0 - 1, end + 2)}
+        region = GRange(gene.chr, w0 - 2, end + 3)
         saved = (sam_mod.pysam.AlignmentFile, prof_mod.pysam.AlignmentFile)
-        sam_mod.pysam.AlignmentFile = lambda *a, **k: FakeSam([r], (gene.chr,))
-        prof_mod.pysam.AlignmentFile = lambda *a, **k: FakeSam([r], (gene.chr,))
+        sam_mod.pysam.AlignmentFile = lambda *a, **k: FakeSam(reads, (gene.chr,))
+        prof_mod.pysam.AlignmentFile = lambda *a, **k: FakeSam(reads, (gene.chr,))
         try:
             s2 = new_sample(gene)
             s2.path = "x"
